@@ -50,7 +50,9 @@ func c14WideKeys(r *core.Run) {
 				cls := fmt.Sprintf("signing-key-wider-than-its-field[%d-byte key,crypto-type-%d]", sl, ct)
 				var v *keys_and_cert.KeysAndCert
 				var cerr error
-				if pan, msg := core.Guard(func() { v, cerr = keys_and_cert.NewKeysAndCert(kc, pk, pad, rawSigningKey(refmodel.Fill("c14w.s", uint64(st), sl))) }); pan {
+				if pan, msg := core.Guard(func() {
+					v, cerr = keys_and_cert.NewKeysAndCert(kc, pk, pad, rawSigningKey(refmodel.Fill("c14w.s", uint64(st), sl)))
+				}); pan {
 					r.Violate("C14|keys_and_cert.NewKeysAndCert|"+cls+"|constructor-panics", msg, cs)
 					continue
 				}
